@@ -343,7 +343,7 @@ class Exec:
         if op == "fneg":
             R(z3.fpNeg(V(a[0]))); return None
         if op == "icmp":
-            pred, x, y = a; xv, yv = V(x), V(y)
+            pred, x, y, t = a; xv, yv = V(x, t), V(y, t)
             if t.k == "ptr":
                 if isinstance(xv, Ptr) and isinstance(yv, Ptr) and conc(xv.off) and conc(yv.off):
                     if pred == "eq": R(int(xv.obj == yv.obj and xv.off == yv.off)); return None
@@ -363,7 +363,7 @@ class Exec:
                  "sgt": lambda: X > Y, "sge": lambda: X >= Y, "slt": lambda: X < Y, "sle": lambda: X <= Y}[pred]()
             R(self.b2i(c)); return None
         if op == "fcmp":
-            pred, x, y = a; X, Y = V(x), V(y)
+            pred, x, y, t = a; X, Y = V(x, t), V(y, t)
             un = z3.Or(z3.fpIsNaN(X), z3.fpIsNaN(Y))
             base = {"eq": z3.fpEQ, "gt": z3.fpGT, "ge": z3.fpGEQ, "lt": z3.fpLT, "le": z3.fpLEQ}
             if pred == "ord": c = z3.Not(un)
